@@ -21,6 +21,14 @@ pub fn run(s: &Session) {
         match run::validate(spec.era, &f.tx, &f.utxos, &env) {
             run::Outcome::Accepted => {
                 obs.class(format!("accepted:{}:{}", spec.era.name(), if f.has_plutus { "plutus" } else { "plain" }));
+                let refs = f.utxos.iter().filter(|u| u.role == "reference").count();
+                if refs > 0 {
+                    obs.class(format!("accepted:{}:reference-inputs", spec.era.name()));
+                }
+                if let (Some(p), true) = (&spec.plutus, f.has_plutus) {
+                    let v = forge::plutus_version(spec.era, p.version);
+                    obs.class(format!("accepted:{}:plutus-v{}:{}", spec.era.name(), v, if p.via_reference && spec.era.babbage_plus() && !(v == 1 && spec.era == forge::EraK::Babbage) { "script-by-reference" } else { "script-in-witness-set" }));
+                }
                 obs.nontrivial();
                 Ok(())
             }
